@@ -44,6 +44,7 @@ fn eval_line(ctx: &Ctx, line: &str) -> String {
             "io" => io::eval(*ctxp, &opn, &a),
             "st" => stat::eval(*ctxp, &opn, &a),
             "pn" => c17::eval(*ctxp, &opn, &a),
+            "ct" => create::eval_bytes(*ctxp, &a),
             p @ ("c01" | "c02" | "c08" | "c09" | "c10" | "c11" | "c12") => {
                 let _ = p;
                 if opn.ends_with(".mem") { create::eval_mem(&a) }
